@@ -25,6 +25,7 @@ class Message(object):
         self.method = method
         self.ctx_dict = ctx_dict
         self.kwargs = kwargs        # serialised entities
+        self.raw = {}               # the objects before serialisation
         self.call = call
         self.dup_of = None
         self.redelivered = False
@@ -34,12 +35,13 @@ class Message(object):
                     copy.deepcopy(self.kwargs), False)
         m.dup_of = self.mid
         m.redelivered = redelivered
+        m.raw = self.raw
         return m
 
     def brief(self):
         ids = []
         for k in ('action_ex_id', 'task_ex_id', 'wf_ex_id', 'wf_identifier'):
-            v = self.kwargs.get(k)
+            v = self.raw.get(k)
             if isinstance(v, str):
                 ids.append(v[:8])
         return '%s(%s)' % (self.method, ','.join(ids))
@@ -55,7 +57,9 @@ class HarnessRPCClient(rpc_base.RPCClient):
         ser = self.serializer
         ctx_dict = ser.serialize_context(ctx)
         kw = {k: ser.serialize_entity(ctx, v) for k, v in kwargs.items()}
-        return Message(self.topic, method, ctx_dict, kw, call)
+        m = Message(self.topic, method, ctx_dict, kw, call)
+        m.raw = dict(kwargs)
+        return m
 
     def sync_call(self, ctx, method, target=None, **kwargs):
         w = _WORLD[0]
